@@ -58,3 +58,66 @@ Theorem C15_rule7_ghost_without_default : forall order_tp s msgs f g tp ta k,
     In ("Member instruction #[ghost(...)] for member '" ^^ member_str (f_member f) ^^ "' should provide default value for type " ^^ tp_str tp)%string msgs.
 Proof. exact rule_ghost_without_default. Qed.
 Print Assumptions C15_rule7_ghost_without_default.
+
+(* ---- further rules (Lemmas/Rules2.v) ---- *)
+From O2o.Lemmas Require Import Rules2.
+
+(* rule 2: two instructions that request the same (kind, fallibility) impl for one counterpart, anywhere in the instruction list *)
+Theorem C15_rule2_duplicate_instruction : forall order_tp d msgs l1 a l2 b l3 k f,
+    validate_msgs order_tp d = Ok msgs ->
+    d_attrs (dt_get_attrs d) = l1 ++ a :: l2 ++ b :: l3 ->
+    ta_fallible a = f -> ta_fallible b = f -> appl_get (ta_appl a) k = true -> appl_get (ta_appl b) k = true ->
+    tp_eqb (tc_ty (ta_core b)) (tc_ty (ta_core a)) = true ->
+    In "Ident here must be unique."%string msgs.
+Proof. exact rule_duplicate_instruction. Qed.
+Print Assumptions C15_rule2_duplicate_instruction.
+
+(* rule 8: #[child(..)] on any field of a struct without #[child_parents] for an into-counterpart / with a path prefix missing from it *)
+Theorem C15_rule8_child_without_child_parents : forall order_tp s msgs f c ta k,
+    (forall l, Permutation (order_tp l) l) ->
+    validate_msgs order_tp (DStruct s) = Ok msgs ->
+    In f (s_fields s) -> In c (m_child (f_attrs f)) -> ch_ty c = None -> ch_path c <> [] ->
+    In (ta, k) (attrs_by_kind (s_attrs s)) -> is_from k = false -> is_into_existing k = false ->
+    child_parents_attr_for (s_attrs s) (tc_ty (ta_core ta)) = None ->
+    In ("Missing #[child_parents(...)] instruction for " ^^ tp_str (tc_ty (ta_core ta)))%string msgs.
+Proof. exact rule_child_without_child_parents. Qed.
+Print Assumptions C15_rule8_child_without_child_parents.
+
+Theorem C15_rule8_child_path_missing : forall order_tp s msgs f c ta k a path,
+    (forall l, Permutation (order_tp l) l) ->
+    validate_msgs order_tp (DStruct s) = Ok msgs ->
+    In f (s_fields s) -> In c (m_child (f_attrs f)) -> ch_ty c = None ->
+    In (ta, k) (attrs_by_kind (s_attrs s)) -> is_from k = false -> is_into_existing k = false ->
+    child_parents_attr_for (s_attrs s) (tc_ty (ta_core ta)) = Some a ->
+    In path (child_path_strs (ch_path c)) -> existsb (fun x => String.eqb (cd_str x) path) (ca_data a) = false ->
+    In ("Missing '" ^^ path ^^ ": [Type Path]' instruction for type " ^^ tp_str (tc_ty (ta_core ta)))%string msgs.
+Proof. exact rule_child_path_missing. Qed.
+Print Assumptions C15_rule8_child_path_missing.
+
+(* rule 9: a tuple struct mapped `as {}` whose field has no instruction for the conversion *)
+Theorem C15_rule9_tuple_to_named_without_names : forall order_tp s msgs f ta k,
+    validate_msgs order_tp (DStruct s) = Ok msgs ->
+    s_named s = false -> In f (s_fields s) ->
+    In (ta, k) (attrs_by_kind (s_attrs s)) -> tc_qret (ta_core ta) = None -> tc_hint (ta_core ta) = HStruct ->
+    m_ghost_for (f_attrs f) (tc_ty (ta_core ta)) k = None -> has_parent_attr (f_attrs f) (tc_ty (ta_core ta)) = false ->
+    applicable_field_attr (f_attrs f) k false (tc_ty (ta_core ta)) = None ->
+    In ("Member " ^^ member_str (f_member f) ^^ " should have member trait instruction with field name" ^^ (if is_from k then " or an action" else "") ^^
+        ", that corresponds to #[" ^^ fallible_kind_str k false ^^ "(" ^^ tp_str (tc_ty (ta_core ta)) ^^ "...)] trait instruction")%string msgs.
+Proof. exact rule_tuple_to_named_without_names. Qed.
+Print Assumptions C15_rule9_tuple_to_named_without_names.
+
+(* rule 10: an untyped nested `[parent(..)] member` on a struct field, under a From conversion *)
+Theorem C15_rule10_untyped_nested_parent : forall order_tp s msgs f p fields pcf i ta k,
+    validate_msgs order_tp (DStruct s) = Ok msgs ->
+    In f (s_fields s) -> In p (m_parent (f_attrs f)) -> pa_children p = Some fields -> In pcf fields -> In i (pc_sub pcf) -> snd i = None ->
+    In (ta, k) (attrs_by_kind (s_attrs s)) -> is_from k = true -> pty_matches p (tc_ty (ta_core ta)) = true ->
+    In ("Field '" ^^ member_str (fst i) ^^ "' should have type here, e.g. '" ^^ member_str (fst i) ^^ ": SomeStruct'")%string msgs.
+Proof. exact rule_untyped_nested_parent. Qed.
+Print Assumptions C15_rule10_untyped_nested_parent.
+
+(* finding F-15c as a theorem: the collected messages do not depend on the payload fields of struct-form variants at all *)
+Theorem C15_payload_fields_unvalidated : forall order_tp e e',
+    e_attrs e = e_attrs e' -> Forall2 same_but_named_payload (e_variants e) (e_variants e') ->
+    validate_msgs order_tp (DEnum e) = validate_msgs order_tp (DEnum e').
+Proof. exact payload_fields_of_named_variants_unvalidated. Qed.
+Print Assumptions C15_payload_fields_unvalidated.
